@@ -5,7 +5,7 @@ from ..par import pmap
 from . import C01
 
 ASSUMPTIONS = C01.ASSUMPTIONS[:2] + ["in process mode the instrumented objective appends its argument to a file under .work (O_APPEND), so worker-side calls are observed too"]
-MODULES = ["PvModel.Props.C05", "PvModel.Accept", "PvModel.Props.T01", "PvModel.Props.T05", "PvModel.Props.R13", "PvModel.Props.R02", "PvModel.Props.T13", "PvModel.Props.T14"]
+MODULES = ["PvModel.Props.C05", "PvModel.Accept", "PvModel.Props.T01", "PvModel.Props.T05", "PvModel.Props.R13", "PvModel.Props.R02", "PvModel.Props.T13", "PvModel.Props.T14", "PvModel.Props.R14"]
 
 
 def run(ctx):
